@@ -104,6 +104,9 @@ const TARGETS: &[Target] = &[
     Target { name: "print_bof", file: "src/stream.rs", impl_trait: None, impl_self: None, func: "print_bof",
              calls: &[("matches", "gen_ub_matches"), ("print_field", "gen_print_field")], deps: &["ub_matches", "print_field"],
              imports: "Model.Scan Model.Regex Model.Opt Model.Stream Tie.RsOpt Tie.RsStr Tie.RsList", ret_muts: false, fuel: "" },
+    Target { name: "print_rest", file: "src/stream.rs", impl_trait: None, impl_self: None, func: "print_filler_or_fallbacks",
+             calls: &[("matches", "gen_ub_matches")], deps: &["ub_matches"],
+             imports: "Model.Scan Model.Regex Model.Opt Model.Stream Tie.RsOpt Tie.RsStr Tie.RsList", ret_muts: false, fuel: "" },
     Target { name: "maybe_replace", file: "src/cut_str.rs", impl_trait: None, impl_self: None,
              func: "maybe_replace_delimiter", calls: &[("replace_all", "rx_replace_all")], deps: &[],
              imports: "Model.Scan Model.Regex Model.Opt Model.CutStr Tie.RsRegex", ret_muts: false, fuel: "" },
@@ -647,7 +650,7 @@ impl Cx {
                     }
                 } else { return Ok(None); }
             }
-            Expr::If(_) | Expr::Match(_) | Expr::Block(_) | Expr::Return(_) | Expr::Try(_) | Expr::Assign(_) | Expr::ForLoop(_) | Expr::Closure(_) | Expr::Index(_) | Expr::Break(_) | Expr::While(_) => return Ok(None),
+            Expr::If(_) | Expr::Match(_) | Expr::Block(_) | Expr::Return(_) | Expr::Try(_) | Expr::Assign(_) | Expr::ForLoop(_) | Expr::Closure(_) | Expr::Index(_) | Expr::Break(_) | Expr::Continue(_) | Expr::While(_) => return Ok(None),
             other => return Err(format!("expression kind at line {}", other.span().start().line)),
         }))
     }
@@ -859,6 +862,11 @@ impl Cx {
                 Ok(format!("(bind (whileM {} (fun {} => {}) (fun {} => {}) {}) (fun {} => match {} with Next {} => ({} tt) | Stop {} => ({} tt) | Break {} => ({} {}) end))",
                            self.fuel, st_pat, cond, st_pat, body, st_tup, r, r, sp, k, sp, k, v, outer_ret, v))
             }
+            Expr::Continue(c) => {
+                if c.label.is_some() { return Err("labelled continue".into()); }
+                let st = self.loop_state.last().cloned().ok_or("continue outside a loop")?;
+                Ok(format!("(Ret (Next {}))", st))
+            }
             Expr::Break(b) => {
                 if b.label.is_some() || b.expr.is_some() { return Err("labelled break".into()); }
                 let st = self.loop_state.last().cloned().ok_or("break outside a for loop")?;
@@ -918,6 +926,15 @@ impl Cx {
             Expr::Index(ix) if matches!(&*ix.index, Expr::Range(_)) => {
                 // &s[a..] / &s[..b] / &s[a..b] on a str: panics when out of range
                 let rg = match &*ix.index { Expr::Range(r) => r, _ => unreachable!() };
+                if self.ty(&ix.expr) == Ty::UBL {
+                    // &bounds[i..]: the items from index i on (a panic when i is past the end)
+                    let rg = match &*ix.index { Expr::Range(r) => r, _ => unreachable!() };
+                    let (st, en) = (rg.start.as_ref(), rg.end.as_ref());
+                    if en.is_some() || st.is_none() || !matches!(rg.limits, RangeLimits::HalfOpen(_)) { return Err("slicing of a bounds list other than [i..]".into()); }
+                    let (v, a) = (self.fresh("t"), self.fresh("t"));
+                    let inner = self.tr(st.unwrap(), &format!("(fun {} => (bind (vec_from (items {}) {}) {}))", a, v, a, k))?;
+                    return self.tr(&ix.expr, &format!("(fun {} => {})", v, inner));
+                }
                 if !matches!(self.ty(&ix.expr), Ty::Str | Ty::Bytes) { return Err("slicing of something that is not a str or a byte slice".into()); }
                 if !matches!(rg.limits, RangeLimits::HalfOpen(_)) { return Err("inclusive slice".into()); }
                 let (sv, a, b) = (self.fresh("t"), self.fresh("t"), self.fresh("t"));
@@ -1119,6 +1136,11 @@ impl Cx {
                 let x = self.fresh("t");
                 let body = if m.method == "len" { format!("(Z.of_nat (length {}))", x) } else { format!("(hd_error {})", x) };
                 self.tr(&m.receiver, &format!("(fun {} => ({} {}))", x, k, body))
+            }
+            Expr::MethodCall(m) if m.method == "unwrap_or" && m.args.len() == 1 => {
+                let d = self.pure(&m.args[0])?.ok_or("unwrap_or with an effectful default")?;
+                let x = self.fresh("t");
+                self.tr(&m.receiver, &format!("(fun {} => ({} (match {} with Some v_ => v_ | None => {} end)))", x, k, x, d))
             }
             Expr::MethodCall(m) if (m.method == "expect" || m.method == "unwrap") => {
                 // Option::unwrap: panics on None
